@@ -16,6 +16,7 @@ import Liftbridge.Driver.ActivityDrv
 import Liftbridge.Driver.FailoverDrv
 import Liftbridge.Driver.MetadataDrv
 import Liftbridge.Driver.RecoverDrv
+import Liftbridge.Driver.ProtoDrv
 
 namespace Liftbridge.Driver
 open Liftbridge
@@ -28,6 +29,7 @@ structure St where
   failover : FailoverSt := {}
   metadata : MetaSt := {}
   recov : RecSt := {}
+  proto : ProtoSt := {}
 
 def showRes {α} (f : α → String) : Res α → String
   | .ok a => "ok " ++ f a
@@ -64,6 +66,7 @@ def step (st : St) (line : String) : St × String :=
   | "c19" :: rest => (st, c19 rest)
   | "c15" :: rest => (st, c15Step rest)
   | "c17" :: rest => (st, c17 rest)
+  | "proto" :: rest => let (p, out) := protoStep st.proto rest; ({ st with proto := p }, out)
   | "c05" :: rest => let (r, out) := recStep st.recov rest; ({ st with recov := r }, out)
   | "c06" :: rest => let (m, out) := metaStep st.metadata rest; ({ st with metadata := m }, out)
   | "c07" :: rest => let (f, out) := failoverStep st.failover rest; ({ st with failover := f }, out)
